@@ -1,0 +1,134 @@
+//go:build verif
+
+// Contracts for package caseconversion, checked by /verif/govc (see /verif/DESIGN.md).  Comment-only file.
+
+package caseconversion
+
+// Stage 1 of C19: no string of any content (non-ASCII and invalid UTF-8 included) makes a decoder, encoder
+// or helper index out of range, and the initialism extraction terminates.
+
+//@ func caseconversion.decodeCamelCase(typeName, s) (words, err)
+//@   props C19
+//@   safety C16 C19
+//@   loop 0:
+//@     invariant 0 <= lastBoundary && lastBoundary <= len(s)
+
+//@ func caseconversion.DecodeUpperCamelCase(s) (words, err)
+//@   props C19
+//@   safety C16 C19
+//@ func caseconversion.DecodeLowerCamelCase(s) (words, err)
+//@   props C19
+//@   safety C16 C19
+
+//@ func caseconversion.firstCharOfInitialism(s, i) (r)
+//@   props C19
+//@   safety C16 C19
+//@   requires 0 <= i && i <= len(s)
+//@ func caseconversion.firstCharAfterInitialism(s, i) (r)
+//@   props C19
+//@   safety C16 C19
+//@   requires 0 <= i && i <= len(s)
+//@ func caseconversion.lastCharOfInitialismAtEOS(s, i) (r)
+//@   props C19
+//@   safety C16 C19
+//@   requires 0 <= i && i <= len(s)
+
+//@ functype func(rune) bool(f, r) (b)
+
+//@ func caseconversion.decodeGoCamelCase(s, isWordBoundary) (words, err)
+//@   props C19
+//@   safety C16 C19
+//@   requires isWordBoundary != nil
+//@   requires wf_table: tableOK()
+//@   loop 0:
+//@     invariant 0 <= lastBoundary && lastBoundary <= len(s)
+
+//@ func caseconversion.DecodeGoCamelCase(s) (words, err)
+//@   props C19
+//@   safety C16 C19
+//@   requires wf_table: tableOK()
+//@ func caseconversion.DecodeGoCamelCase$1(r) (b)
+//@   props C19
+//@   safety C16 C19
+//@ func caseconversion.DecodeGoTags(s) (words, err)
+//@   props C19
+//@   safety C16 C19
+//@   requires wf_table: tableOK()
+//@ func caseconversion.DecodeGoTags$1(r) (b)
+//@   props C19
+//@   safety C16 C19
+
+// The package-level table is data: that its entries are non-empty (and ordered safely, see the table
+// obligations of the C19 check) is checked on the literal itself.
+//@ macro tableOK() bool = forall k int :: 0 <= k && k < len(global("commonInitialisms")) ==> len(as(global("commonInitialisms"), "[]string")[k]) >= 1
+
+//@ func caseconversion.extractInitialisms(s) (words)
+//@   props C19
+//@   safety C16 C19
+//@   requires wf_table: tableOK()
+//@   loop 0:
+//@     decreases len(s)
+//@   loop 1:
+//@     invariant len(s) <= atloop(0, len(s))
+//@     invariant initialismFound ==> len(s) < atloop(0, len(s))
+
+//@ func caseconversion.decodeLowerCaseWithSplitChar(splitChar, typeName, s) (words, err)
+//@   props C19
+//@   safety C16 C19
+//@   requires split_char_is_ascii: 0 <= splitChar && splitChar < 128
+//@   loop 0:
+//@     invariant 0 <= lastBoundary && lastBoundary <= len(s)
+
+//@ func caseconversion.DecodeLowerSnakeCase(s) (words, err)
+//@   props C19
+//@   safety C16 C19
+//@ func caseconversion.DecodeKebabCase(s) (words, err)
+//@   props C19
+//@   safety C16 C19
+//@ func caseconversion.DecodeUpperSnakeCase(s) (words, err)
+//@   props C19
+//@   safety C16 C19
+//@   loop 0:
+//@     invariant 0 <= lastBoundary && lastBoundary <= len(s)
+//@ func caseconversion.DecodeCasePreservingSnakeCase(s) (words, err)
+//@   props C19
+//@   safety C16 C19
+//@   loop 0:
+//@     invariant 0 <= lastBoundary && lastBoundary <= len(s)
+
+//@ func caseconversion.aggregateStringLen(words) (total)
+//@   props C19
+//@   safety C16 C19
+//@   requires wf_few_words: len(words) <= 1048576
+//@   loop 0:
+//@     invariant 0 <= total && total <= rangeidx * 1099511627776
+//@   ensures 0 <= total && total <= len(words) * 1099511627776
+
+//@ func caseconversion.EncodeUpperCamelCase(words) (s)
+//@   props C19
+//@   safety C16 C19
+//@   requires wf_few_words: len(words) <= 1048576
+//@ func caseconversion.EncodeLowerCamelCase(words) (s)
+//@   props C19
+//@   safety C16 C19
+//@   requires wf_few_words: len(words) <= 1048576
+//@ func caseconversion.EncodeKebabCase(words) (s)
+//@   props C19
+//@   safety C16 C19
+//@ func caseconversion.EncodeLowerSnakeCase(words) (s)
+//@   props C19
+//@   safety C16 C19
+//@   requires wf_few_words: len(words) <= 1048576
+//@ func caseconversion.EncodeUpperSnakeCase(words) (s)
+//@   props C19
+//@   safety C16 C19
+//@   requires wf_few_words: len(words) <= 1048576
+//@ func caseconversion.EncodeCasePreservingSnakeCase(words) (s)
+//@   props C19
+//@   safety C16 C19
+
+// Data obligations on the initialism table, evaluated on the literal itself.  The greedy in-order scan of
+// extractInitialisms returns exactly the table's initialisms only if no entry is a proper prefix of a
+// LATER entry (otherwise the longer one is split, e.g. HTTPS -> http + s).
+//@ table commonInitialisms nonempty_entries C19 C16
+//@ table commonInitialisms no_entry_is_proper_prefix_of_a_later_entry C19
